@@ -54,3 +54,207 @@ pub fn c09_push_opcode_size() {
     chk!(hk::push_opcode_size(n) == r, "push_opcode_size differs from the minimal push opcode length");
     cover!(n == 76, "PUSHDATA1 boundary");
 }
+
+// ------------------------------------------------------------------------------------------
+// Accounting lemmas: every `ExtData` combinator on ARBITRARY child figures against the
+// satisfaction table of the Miniscript specification.  For a fragment built from children whose
+// real satisfactions / dissatisfactions stay within the children's figures, the witness the table
+// prescribes is a concatenation of child witnesses plus selector pushes (`<>`: 1 element, 1 byte
+// as a witness item, 1 byte in a scriptSig; `<1>`: 1 element, 2 bytes, 1 byte), so the figure of
+// the parent must be at least the sum the table gives, for every alternative the table offers.
+// Decided per figure: element count, witness bytes, scriptSig bytes, executed-opcode surcharge.
+// (`max_exec_stack_count` is not covered: DESIGN §0.3.)
+
+use miniscript::miniscript::types::extra_props::{ExtData, SatData, TimelockInfo};
+
+/// (count, witness bytes, scriptSig bytes, executed-op surcharge); None = impossible
+type R = Option<[usize; 4]>;
+
+fn fig(d: Option<SatData>) -> R { d.map(|d| [d.max_witness_stack_count, d.max_witness_stack_size, d.max_script_sig_size, d.max_exec_op_count]) }
+fn cat(a: R, b: R) -> R {
+    match (a, b) {
+        (Some(a), Some(b)) => Some([a[0] + b[0], a[1] + b[1], a[2] + b[2], a[3] + b[3]]),
+        _ => None,
+    }
+}
+const PUSH0: R = Some([1, 1, 1, 0]);
+const PUSH1: R = Some([1, 2, 1, 0]);
+const NOTHING: R = Some([0, 0, 0, 0]);
+
+/// `lib` covers the alternative `want`: if the table offers it, the library's figure exists and is
+/// at least as large in every component.
+fn covers(lib: R, want: R) -> bool {
+    match (want, lib) {
+        (None, _) => true,
+        (Some(_), None) => false,
+        (Some(w), Some(l)) => l[0] >= w[0] && l[1] >= w[1] && l[2] >= w[2] && l[3] >= w[3],
+    }
+}
+/// the library does not invent a (dis)satisfaction the table does not have
+fn exists_only_if(lib: R, alts: &[R]) -> bool {
+    let mut any = false;
+    let mut i = 0;
+    while i < alts.len() {
+        if alts[i].is_some() {
+            any = true;
+        }
+        i += 1;
+    }
+    lib.is_none() || any
+}
+
+fn any_sat16() -> Option<SatData> {
+    if sym::bool_() {
+        Some(SatData {
+            max_witness_stack_size: sym::u16_() as usize,
+            max_witness_stack_count: sym::u16_() as usize,
+            max_script_sig_size: sym::u16_() as usize,
+            max_exec_stack_count: sym::u16_() as usize,
+            max_exec_op_count: sym::u16_() as usize,
+        })
+    } else {
+        None
+    }
+}
+fn any_ext16() -> ExtData {
+    ExtData {
+        pk_cost: sym::u16_() as usize,
+        has_free_verify: sym::bool_(),
+        static_ops: sym::u16_() as usize,
+        sat_data: any_sat16(),
+        dissat_data: any_sat16(),
+        timelock_info: TimelockInfo::new(),
+        tree_height: sym::u8_() as usize,
+    }
+}
+
+fn check(name_sat_ok: bool, name_dis_ok: bool) {
+    chk!(name_sat_ok, "static satisfaction figures are below what the specification's satisfaction table composes from the children");
+    chk!(name_dis_ok, "static dissatisfaction figures are below what the specification's satisfaction table composes from the children");
+}
+
+// @h c09_acc_* timeout=1500 mem=8
+#[cfg_attr(kani, kani::proof)]
+pub fn c09_acc_wrappers() {
+    let x = any_ext16();
+    let (xs, xd) = (fig(x.sat_data), fig(x.dissat_data));
+    // a: s: c: n: leave the witness alone
+    for e in [x.cast_alt(), x.cast_swap(), x.cast_check(), x.cast_zeronotequal()] {
+        check(covers(fig(e.sat_data), xs) && exists_only_if(fig(e.sat_data), &[xs]), covers(fig(e.dissat_data), xd) && exists_only_if(fig(e.dissat_data), &[xd]));
+    }
+    // v: satisfaction unchanged, no dissatisfaction
+    let v = x.cast_verify();
+    check(covers(fig(v.sat_data), xs) && exists_only_if(fig(v.sat_data), &[xs]), v.dissat_data.is_none());
+    // t:X = and_v(X,1)
+    let t = x.cast_true();
+    check(covers(fig(t.sat_data), xs) && exists_only_if(fig(t.sat_data), &[xs]), t.dissat_data.is_none());
+    // d:X  sat = sat(X) <1>, dissat = <>
+    let d = x.cast_dupif();
+    check(covers(fig(d.sat_data), cat(xs, PUSH1)) && exists_only_if(fig(d.sat_data), &[xs]), covers(fig(d.dissat_data), PUSH0));
+    // j:X  sat = sat(X), dissat = <>
+    let j = x.cast_nonzero();
+    check(covers(fig(j.sat_data), xs) && exists_only_if(fig(j.sat_data), &[xs]), covers(fig(j.dissat_data), PUSH0));
+    // l:X = or_i(0,X): sat = sat(X) <>, dissat = <1> | dsat(X) <>
+    let l = x.cast_likely();
+    check(covers(fig(l.sat_data), cat(xs, PUSH0)) && exists_only_if(fig(l.sat_data), &[xs]), covers(fig(l.dissat_data), PUSH1) && covers(fig(l.dissat_data), cat(xd, PUSH0)));
+    // u:X = or_i(X,0): sat = sat(X) <1>, dissat = dsat(X) <1> | <>
+    let u = x.cast_unlikely();
+    check(covers(fig(u.sat_data), cat(xs, PUSH1)) && exists_only_if(fig(u.sat_data), &[xs]), covers(fig(u.dissat_data), PUSH0) && covers(fig(u.dissat_data), cat(xd, PUSH1)));
+    cover!(x.sat_data.is_some() && x.dissat_data.is_none(), "child without dissatisfaction");
+    cover!(x.sat_data.is_none(), "child without satisfaction");
+}
+
+#[cfg_attr(kani, kani::proof)]
+pub fn c09_acc_binary() {
+    let (x, z) = (any_ext16(), any_ext16());
+    let (xs, xd, zs, zd) = (fig(x.sat_data), fig(x.dissat_data), fig(z.sat_data), fig(z.dissat_data));
+    // and_v(X,Y): sat = sat(Y) sat(X)
+    let e = ExtData::and_v(x, z);
+    check(covers(fig(e.sat_data), cat(xs, zs)) && exists_only_if(fig(e.sat_data), &[cat(xs, zs)]), e.dissat_data.is_none());
+    // and_b(X,Y): sat = sat(Y) sat(X); dissat = dsat(Y) dsat(X)
+    let e = ExtData::and_b(x, z);
+    check(covers(fig(e.sat_data), cat(xs, zs)) && exists_only_if(fig(e.sat_data), &[cat(xs, zs)]), covers(fig(e.dissat_data), cat(xd, zd)));
+    // or_b(X,Z): sat = dsat(Z) sat(X) | sat(Z) dsat(X); dissat = dsat(Z) dsat(X)
+    let e = ExtData::or_b(x, z);
+    check(
+        covers(fig(e.sat_data), cat(xs, zd)) && covers(fig(e.sat_data), cat(xd, zs)) && exists_only_if(fig(e.sat_data), &[cat(xs, zd), cat(xd, zs)]),
+        covers(fig(e.dissat_data), cat(xd, zd)) && exists_only_if(fig(e.dissat_data), &[cat(xd, zd)]),
+    );
+    // or_c(X,Z): sat = sat(X) | sat(Z) dsat(X)
+    let e = ExtData::or_c(x, z);
+    check(covers(fig(e.sat_data), xs) && covers(fig(e.sat_data), cat(xd, zs)) && exists_only_if(fig(e.sat_data), &[xs, cat(xd, zs)]), e.dissat_data.is_none());
+    // or_d(X,Z): sat = sat(X) | sat(Z) dsat(X); dissat = dsat(Z) dsat(X)
+    let e = ExtData::or_d(x, z);
+    check(
+        covers(fig(e.sat_data), xs) && covers(fig(e.sat_data), cat(xd, zs)) && exists_only_if(fig(e.sat_data), &[xs, cat(xd, zs)]),
+        covers(fig(e.dissat_data), cat(xd, zd)) && exists_only_if(fig(e.dissat_data), &[cat(xd, zd)]),
+    );
+    // or_i(X,Z): sat = sat(X) <1> | sat(Z) <>; dissat = dsat(X) <1> | dsat(Z) <>
+    let e = ExtData::or_i(x, z);
+    check(
+        covers(fig(e.sat_data), cat(xs, PUSH1)) && covers(fig(e.sat_data), cat(zs, PUSH0)) && exists_only_if(fig(e.sat_data), &[xs, zs]),
+        covers(fig(e.dissat_data), cat(xd, PUSH1)) && covers(fig(e.dissat_data), cat(zd, PUSH0)) && exists_only_if(fig(e.dissat_data), &[xd, zd]),
+    );
+    cover!(x.dissat_data.is_some() && z.dissat_data.is_none(), "right child without dissatisfaction");
+    cover!(x.dissat_data.is_none() && z.dissat_data.is_some(), "left child without dissatisfaction");
+}
+
+#[cfg_attr(kani, kani::proof)]
+pub fn c09_acc_andor() {
+    let (x, y, z) = (any_ext16(), any_ext16(), any_ext16());
+    let (xs, xd, ys, zs, zd) = (fig(x.sat_data), fig(x.dissat_data), fig(y.sat_data), fig(z.sat_data), fig(z.dissat_data));
+    // andor(X,Y,Z): sat = sat(Y) sat(X) | sat(Z) dsat(X); dissat = dsat(Z) dsat(X)
+    let e = ExtData::and_or(x, y, z);
+    check(
+        covers(fig(e.sat_data), cat(xs, ys)) && covers(fig(e.sat_data), cat(xd, zs)) && exists_only_if(fig(e.sat_data), &[cat(xs, ys), cat(xd, zs)]),
+        covers(fig(e.dissat_data), cat(xd, zd)) && exists_only_if(fig(e.dissat_data), &[cat(xd, zd)]),
+    );
+    cover!(x.dissat_data.is_none(), "X without dissatisfaction");
+}
+
+/// thresh(k, X1..Xn): sat = exactly k children satisfied, the others dissatisfied, for EVERY such
+/// choice; dissat = all dissatisfied.
+fn acc_thresh<const N: usize>() {
+    let mut xs = [ExtData::TRUE; N];
+    let mut i = 0;
+    while i < N {
+        xs[i] = any_ext16();
+        // precondition of the rule: `thresh` only type-checks over dissatisfiable children (Bdu /
+        // Wdu; proved for the typing rule in C05), and a dissatisfiable fragment always carries
+        // dissatisfaction figures.  Without it the solver returns a child that can be satisfied but
+        // not dissatisfied, which no well-typed thresh has (first version of this harness).
+        sym::assume(xs[i].dissat_data.is_some());
+        i += 1;
+    }
+    let k = sym::usize_();
+    sym::assume(k >= 1 && k <= N);
+    let e = ExtData::threshold(k, N, |i| xs[i]);
+    // a symbolic choice of the satisfied subset
+    let mask = sym::u8_() as usize;
+    sym::assume(mask < (1 << N));
+    let mut want = NOTHING;
+    let mut alld = NOTHING;
+    let mut cnt = 0;
+    i = 0;
+    while i < N {
+        if (mask >> i) & 1 == 1 {
+            want = cat(want, fig(xs[i].sat_data));
+            cnt += 1;
+        } else {
+            want = cat(want, fig(xs[i].dissat_data));
+        }
+        alld = cat(alld, fig(xs[i].dissat_data));
+        i += 1;
+    }
+    if cnt == k {
+        chk!(covers(fig(e.sat_data), want), "static satisfaction figures are below what the specification's satisfaction table composes from the children");
+        cover!(want.is_some(), "a k-subset is satisfiable");
+    }
+    chk!(covers(fig(e.dissat_data), alld), "static dissatisfaction figures are below what the specification's satisfaction table composes from the children");
+}
+
+// @h c09_acc_thresh_2 timeout=1500 mem=8
+#[cfg_attr(kani, kani::proof)]
+#[cfg_attr(kani, kani::unwind(8))]
+pub fn c09_acc_thresh_2() { acc_thresh::<2>() }
+// (three children: CBMC exceeds 10 GB after 50 min - measured; not registered)
